@@ -621,4 +621,45 @@ theorem S1_start_failure_no_attempt (cfg : Cfg) (lc : LClient) (rq : Request) :
   have : exnOfName Gen.HttpRetry.startFailThrow = .runtime := by decide
   simp [performRequestS, this]
 
+/-- **R3 (bytes): an announced chunk-size above the response cap is a framing error AT THE SIZE LINE** (seed C17-e).
+(1) the source rejects right after the chunk-size parse, before it waits for the chunk data, when the number does not parse OR
+`chunkSize > effectiveCap` (regenerated fact `Gen.chunkSizeReject`: moving the cap test behind the data makes this fail to build);
+(2) the byte-level model (C15's `sizeLine`, mirrored from that test) accepts a size line only for a size within the cap;
+(3) so `advanceChunked` answers NeedMore after a complete size line — i.e. the attempt goes on to another `receiveSync`, which a
+silent or closing peer ends with a RETRYABLE generic error — only for an announced size within the cap;
+(4) and whatever the byte-level loop classifies as a framing error is `HttpFramingError` in this model (never retried: R3), with the
+connection dropped. -/
+theorem R3_bytes_chunk_size_above_cap_is_framing_error :
+    ("chunkSize>effectiveCap" ∈ Gen.HttpRetry.chunkSizeReject ∧ Gen.HttpRetry.chunkRejectBeforeDataWait = true) ∧
+    (∀ (buf : Bytes) (cap pos n ds : Nat), Http.sizeLine buf cap pos = .ok n ds → n ≤ cap) ∧
+    (∀ (buf : Bytes) (cap : Nat) (st : Http.ChunkState), Http.chunkStep buf cap st = .needMore →
+      Http.sizeLine buf cap st.pos = .noLF ∨ ∃ n ds, Http.sizeLine buf cap st.pos = .ok n ds ∧ n ≤ cap) ∧
+    (∀ (method : Bytes) (mrb jmp : Nat) (reuse : Bool) (script : List Http.Recv) (c : Client) (h : Host) (k : Http.Kind),
+      (Http.executeReceive method mrb jmp reuse script).1 = .framingError k →
+      (underLease { reuse := reuse } c h (Link.absAttempt method (Http.effectiveCap mrb jmp) script)).2.1.result = .error .framing ∧
+      (underLease { reuse := reuse } c h (Link.absAttempt method (Http.effectiveCap mrb jmp) script)).1.conns.lookup h = none) := by
+  refine ⟨by decide, Link.sizeLine_ok_le_cap, Link.chunkStep_needMore_within_cap, ?_⟩
+  intro method mrb jmp reuse script c h k hk
+  have hl := Link.reuse_decision_agrees method mrb jmp reuse script c h
+  have hdrop : (Http.executeReceive method mrb jmp reuse script).2 = true := by
+    revert hk
+    unfold Http.executeReceive
+    simp only
+    cases hrun : Http.runScript method (Http.effectiveCap mrb jmp) {} script with
+    | mk st or =>
+      obtain ⟨o, residual⟩ := or
+      cases o <;> simp
+  exact ⟨by rw [hl.2, hk]; rfl, hl.1.mp hdrop⟩
+
+/-- non-vacuity with concrete bytes: `7FFFFFFF`, `FFFFFFFFFFFFFFFF` and cap + 1 are Malformed at the size line with the default cap,
+exactly the cap is NeedMore -/
+theorem R3_bytes_chunk_demo :
+    Http.chunkStep Link.demoChunkOverCap 16777216 {} = .malformed ∧
+    Http.chunkStep (Http.ascii "FFFFFFFFFFFFFFFF\r\nhello") 16777216 {} = .malformed ∧
+    Http.chunkStep (Http.ascii "1000001\r\nhello") 16777216 {} = .malformed ∧
+    Http.chunkStep (Http.ascii "1000000\r\nhello") 16777216 {} = .needMore ∧
+    (Http.advanceChunked Link.demoChunkOverCap 16777216 {}).1 = .malformed :=
+  ⟨Link.demo_chunk_over_cap_step.1, Link.demo_chunk_over_cap_step.2.1, Link.demo_chunk_over_cap_step.2.2.1,
+   Link.demo_chunk_over_cap_step.2.2.2, Link.demo_chunk_over_cap_advance⟩
+
 end Iora.C17
